@@ -21,8 +21,9 @@ CHECKS = {
                 text="As C06 for AArch64: the printed GNU-syntax text of axcut2aarch64 is executed on spec/A64.tla in lock-step "
                      "with the AxCut machine, including MOVZ/MOVN/MOVK halfword semantics, spills beyond 13 variables and the "
                      "external-call model.",
-                note="No AArch64 assembler or emulator is installed: spec/A64.tla (written from the architecture manual) is the "
-                     "only executor and is trusted; cross-backend agreement (C08) reduces that trust.",
+                note="No AArch64 emulator or processor is available: spec/A64.tla (written from the architecture manual) is the "
+                     "only executor and is trusted; cross-backend agreement (C08) reduces that trust, and C14 checks its operand "
+                     "ranges against LLVM's AArch64 assembler.",
                 technique="TLA+ lock-step refinement product checked by TLC on real compiler output (translation validation)"),
     "C08": dict(level="translation_validation", design="§6 C08",
                 text="RISC-V pseudo-assembly executed on spec/RV64.tla in lock-step with the AxCut machine for print-free programs "
@@ -135,11 +136,12 @@ CHECKS.update({
     "C14": dict(level="model_checking", design="§6 C14",
                 text="Every emitted file of every generated program, on all three backends, is judged statically by spec/AsmWF.tla: "
                      "LabelsUnique, TargetsDefined, NoSymbolClash, AllEncodable (operand ranges of every printed form), TableStride. "
-                     "x86-64 files are additionally assembled by GNU as, whose verdict must agree with the specification in both "
-                     "directions. Adaptive adversarial naming: user definitions/types named exactly like generated labels, appended or "
+                     "x86-64 files are additionally assembled by GNU as and AArch64 files by LLVM's integrated assembler (clang "
+                     "--target=aarch64-linux-gnu), whose verdicts must agree with the specification in both directions. Directed "
+                     "families: types with 40..2100 xtors, type names / nested instances of 20..130 characters. Adaptive adversarial naming: user definitions/types named exactly like generated labels, appended or "
                      "obtained by renaming a helper definition (which leaves the numbering of generated names unchanged).",
-                note="No AArch64/RISC-V assembler installed: their operand ranges are from the architecture manual.",
-                technique="TLA+ static well-formedness predicates evaluated by TLC on tokenised real output + GNU as cross-check"),
+                note="The RISC-V text is the backend's own notation that no assembler reads: judged by the specification only.",
+                technique="TLA+ static well-formedness predicates evaluated by TLC on tokenised real output + GNU as / LLVM assembler cross-check"),
     "C15": dict(level="model_checking", design="§6 C15",
                 text="Three-way agreement, judged in TLC: construction label = verdict of the declarative typing relation "
                      "spec/FunTyping.tla (else tool error) = verdict of the real type checker (else violation), on well-typed-by-"
